@@ -62,7 +62,25 @@ def c20_units(tier, seed):
 
 
 def c19_units(tier, seed):
-    return [dict(id="C19a", harness="calendar.VH_C19_Civil", params={})]
+    us = [dict(id="C19a", harness="calendar.VH_C19_Civil", params={})]
+
+    def ranges(off):
+        out = []
+        for k in range(1, 6):
+            lo = max(1, (10 ** (k - 1) if k > 1 else 1) - off)
+            hi = min(9999 if off == 0 else 9998, 10 ** k - 1 - off)
+            if lo <= hi:
+                out.append((lo, hi, k))
+        return out
+    for off in (0, 2697, 544):
+        rs = ranges(off)
+        for (alo, ahi, ka) in rs:
+            for (blo, bhi, kb) in rs:
+                for la in (0, 1):
+                    for lb in (0, 1):
+                        us.append(dict(id=f"C19b[off={off},ya={alo}..{ahi},yb={blo}..{bhi},leap={la}{lb}]", harness="calendar.VH_C19_Chinese",
+                                       params={"YALO": alo, "YAHI": ahi, "YBLO": blo, "YBHI": bhi, "LEAPA": la, "LEAPB": lb, "OFF": off, "KA": ka}))
+    return us
 
 
 def c05_units(tier, seed):
@@ -71,7 +89,8 @@ def c05_units(tier, seed):
 
 PROPS["C07"] = dict(units=c07_units, bounds_text="y in 1..9998, all other arguments in [-2^31, 2^31]")
 PROPS["C20"] = dict(units=c20_units, bounds_text="all valid (y,m,d), y in 1..9998; cubes on month")
-PROPS["C19"] = dict(units=c19_units, bounds_text="two arbitrary valid date-times, years 1..9999")
+PROPS["C19"] = dict(units=c19_units, bounds_text="civil forms: two arbitrary valid date-times, years 1..9999; Chinese renderings: two arbitrary (year 1..9999 resp. 1..9998 for Taoist/Buddhist, month -12..12 except 0, day 1..30) triples, cubed on the digit count of each year and the leap sign of each month",
+                    qtimeout={"quick": 120000, "thorough": 300000})
 PROPS["C05"] = dict(units=c05_units, bounds_text="all valid date-times y in 1..9998")
 
 
